@@ -222,7 +222,9 @@ func MakeShorthand(eco, kind string, args []string) (Shorthand, bool) {
 			return s, false
 		}
 		base := strings.Join(parts, ".")
-		if pre != "" {
+		if strings.HasPrefix(pre, "-") {
+			base += pre // RubyGems reads '-' as '.pre.'
+		} else if pre != "" {
 			base += "." + pre
 		}
 		s.Text = "~> " + base
